@@ -116,10 +116,7 @@ def run(workdir: Path, module: str, cfg_text: str | None = None, cfg: str | None
         r.violated = "assumption"
     elif "Temporal properties were violated" in out:
         r.violated = "temporal-property"
-    for line in out.splitlines():
-        s = line.strip()
-        if s.startswith("<<") or s.startswith('"') or s.startswith("[") and "|->" in s:
-            r.printed.append(s)
+    r.printed = _printed_values(out)
     if coverage:
         for m in _RE_COV.finditer(out):
             r.coverage[m.group(1)] = (int(m.group(4)), int(m.group(3)))
@@ -133,6 +130,44 @@ def run(workdir: Path, module: str, cfg_text: str | None = None, cfg: str | None
         if "Error:" in out or p.returncode != 0:
             r.violated = "eval-error"
     return r
+
+
+def _printed_values(out: str) -> list[str]:
+    """PrintT output: values starting with << at column 0, possibly spanning several lines."""
+    vals, buf, depth = [], [], 0
+    for line in out.splitlines():
+        if not buf:
+            if not line.startswith("<<"):
+                continue
+        buf.append(line.strip())
+        depth += _bracket_delta(line)
+        if depth <= 0:
+            vals.append(" ".join(buf))
+            buf, depth = [], 0
+    return vals
+
+
+def _bracket_delta(line: str) -> int:
+    d, i, n, instr = 0, 0, len(line), False
+    while i < n:
+        ch = line[i]
+        if instr:
+            if ch == "\\":
+                i += 1
+            elif ch == '"':
+                instr = False
+        elif ch == '"':
+            instr = True
+        elif ch in "<([{" and (ch != "<" or line.startswith("<<", i)):
+            d += 1
+            if ch == "<":
+                i += 1
+        elif ch in ">)]}" and (ch != ">" or line.startswith(">>", i)):
+            d -= 1
+            if ch == ">":
+                i += 1
+        i += 1
+    return d
 
 
 def _grab_trace(out: str) -> list[str]:
